@@ -61,6 +61,40 @@ def run(R):
         else:
             R.ob(name, 'not_discharged', dt, {'crosshair': msg[-300:]})
         R.sample({'N': n, 'verdict': v, 'secs': round(dt, 1), 'twin': rv})
+    # job-group specs carrying the real parent fields (in_update_parent_id / absolute_parent_id), parents not monotone
+    pns = [3] if R.tier == 'quick' else [3, 4]
+    R.bounds['specs_with_parent_fields'] = pns
+    gp = chrun.gen_module('C19_conditions_parents', C19_template.source_parents(pns))
+    resp = chrun.run([f'{gp}.checkp{n}' for n in pns] + [f'{gp}.reachp{n}' for n in pns], per_condition_timeout=pct)
+    for n in pns:
+        rv, rmsg, rdt = resp[f'{gp}.reachp{n}']
+        reach = rv == 'refuted'
+        v, msg, dt = resp[f'{gp}.checkp{n}']
+        name = f'_create_bunches N={n}, job-group specs with parent fields (in-update parent ids 0..i, any order): concat=input'
+        if v == 'confirmed':
+            R.ob(name, 'discharged' if reach else 'not_discharged', dt, {'twin': rmsg}, nontrivial=reach)
+        elif v == 'refuted':
+            names = [f'n{i}' for i in range(n)] + [f'p{i}' for i in range(n)] + ['g', 'maxb', 'maxs']
+            args = chrun.parse_counterexample(msg, names)
+            if args is None:
+                raise HarnessError(f'cannot parse CrossHair counterexample: {msg}')
+            if mod is None:
+                mod = importlib.import_module('harness.C19_bunch')
+            lst, ps = [args[f'n{i}'] for i in range(n)], [args[f'p{i}'] for i in range(n)]
+            try:
+                ok = mod.property_holds_parents(lst, ps, args['g'], args['maxb'], args['maxs'])
+            except Exception as e:
+                ok = False
+                msg += f' [{type(e).__name__}: {e}]'
+            if ok:
+                raise HarnessError(f'CrossHair counterexample does not reproduce concretely: {msg}')
+            st = R.finding('bunching-violates-order-or-limits', f'_create_bunches sizes={lst} parents={ps} g={args["g"]} '
+                           f'max_bytes={args["maxb"]} max_size={args["maxs"]}',
+                           {'sizes': lst, 'parents': ps, 'g': args['g'], 'maxb': args['maxb'], 'maxs': args['maxs']})
+            R.ob(name, st, dt, {'cex': args}, nontrivial=True)
+        else:
+            R.ob(name, 'not_discharged', dt, {'crosshair': msg[-300:]})
+        R.sample({'N': n, 'family': 'parent fields', 'verdict': v, 'secs': round(dt, 1), 'twin': rv})
     # submission level: what the real Batch.submit actually SENDS (fast path / multi-bunch path, bunches cut by the count
     # or by the byte limit) reaches the real handlers completely and in order - explored by the z3-driven shape explorer
     from props import C09 as c09
@@ -77,7 +111,10 @@ def replay(path):
         return c09.replay(path)
     mod = importlib.import_module('harness.C19_bunch')
     try:
-        ok = mod.property_holds(d['sizes'], d['g'], d['maxb'], d['maxs'])
+        if 'parents' in d:
+            ok = mod.property_holds_parents(d['sizes'], d['parents'], d['g'], d['maxb'], d['maxs'])
+        else:
+            ok = mod.property_holds(d['sizes'], d['g'], d['maxb'], d['maxs'])
     except Exception as e:
         print('raised', type(e).__name__, e)
         ok = False
